@@ -210,6 +210,9 @@ def strip_targs(s):
             .replace("operator$arrow", "operator->")
 
 
+_COMMUTATIVE = ("+", "*", "==", "!=")
+
+
 class Function:
     def __init__(self, raw, types, tu):
         self.raw = raw
@@ -286,14 +289,16 @@ class Function:
                     x["c"] = [x["c"][1], x["c"][0]]
                     x["op"] = "<" if x["op"] == ">" else "<="
                     x["flipped"] = True
-                    if "span" in x:
-                        x.pop("span")
+                    x["src_op"] = ">" if x["op"] == "<" else ">="      # `span` stays in source order (used by selftest/commute.py only)
+                if x.get("k") == "bin" and x.get("op") in _COMMUTATIVE and len(x.get("c", ())) == 2 and "ordered" not in x:
+                    commutative.append(x)
                 nodes.setdefault(x["i"], x)
                 parent[x["i"]] = p
                 for ch in reversed(x.get("c", ())):
                     stack.append((ch, x))
 
         self._nodes, self._parent = nodes, parent
+        commutative = []
         for i in self._inits:
             visit(i)
         if self._body:
@@ -317,6 +322,18 @@ class Function:
             if isinstance(p.get("t"), int):
                 p["t"] = types[p["t"]]
         self._nodes, self._parent = nodes, parent
+        if commutative:
+            # canonical operand order of the built-in commutative operators `+ * == !=` (exactly commutative, also in IEEE arithmetic):
+            # literals last, then by canonical text; innermost first (a visit is pre-order, so reversed order sees descendants first)
+            from .pp import operand_key
+            for x in reversed(commutative):
+                x["ordered"] = True
+                a, b = x["c"]
+                if a is None or b is None:
+                    continue
+                if operand_key(b) < operand_key(a):
+                    x["c"] = [b, a]
+                    x["swapped"] = True
 
     def node(self, i):
         self._index()
